@@ -14,6 +14,7 @@ import (
 	"golang.org/x/sys/unix"
 
 	"rcproxy/core/internal/netpoll"
+	"rcproxy/verifrt"
 )
 
 type VerifAddr string
@@ -191,8 +192,8 @@ func (w *VerifWorld) Readable(vc *VerifConn) {
 
 // Writable delivers a writable event.
 func (w *VerifWorld) Writable(vc *VerifConn) {
-	if !w.registered(vc) {
-		return
+	if !w.registered(vc) || !verifrt.WantsWrite(vc.Fd) {
+		return // epoll only reports writability of descriptors registered for it
 	}
 	w.note(w.El.callback(vc.Fd, netpoll.OutEvents&^netpoll.ErrEvents))
 }
